@@ -31,12 +31,13 @@ theorem query_reject_no_effect (P : Parser) (w : World) (kgArg : Option String) 
 /-- Phase 2 (accumulator `current_stmt`, re-parse of `(line ++ " ").trim()`) runs exactly the
     sequential reading `specRun` of the lines phase 1 validated. -/
 theorem phase2_eq_specRun (P : Parser) :
-    ∀ (lines : List (List Char)) (s : QState), (∀ l ∈ lines, Trimmed l) → phase2 P s [] lines = specRun P s lines := by
+    ∀ (lines : List (List Char)) (s : QState) (tr : List Event), (∀ l ∈ lines, Trimmed l) →
+      phase2 P s tr [] lines = specRun P s tr lines := by
   intro lines
   induction lines with
-  | nil => intro s _; simp [phase2, specRun]
+  | nil => intro s tr _; simp [phase2, specRun]
   | cons l ls ih =>
-    intro s hl
+    intro s tr hl
     have hT : Trimmed l := hl l (by simp)
     have hrest : ∀ x ∈ ls, Trimmed x := fun x hx => hl x (by simp [hx])
     have htrim : trim ([] ++ l ++ [' ']) = l := by simpa using trim_append_space l hT
@@ -45,10 +46,10 @@ theorem phase2_eq_specRun (P : Parser) :
     unfold phase2 specRun
     simp only [htrim, hne]
     cases hp : parseStatement P l with
-    | none => simpa using ih _ hrest
+    | none => simpa using ih _ _ hrest
     | some st =>
       cases ha : applyStmt s l st with
-      | cont s' => simpa [ha] using ih s' hrest
+      | cont s' => simpa [ha] using ih s' _ hrest
       | abort s' e => simp [ha]
 
 /-- the whole text (after the comment cut) is a statement that `execute_program` handles before
@@ -59,13 +60,13 @@ def intercepted (P : Parser) (w : World) (rq : Req) : Bool :=
   | some st =>
     (startsWithChar '.' (trim rq.text) &&
       (st.kind == .sessionClear || st.kind == .userList || st.kind == .kgAclList || st.kind == .kgAclGrant || st.kind == .kgAclRevoke))
-    || ((if rq.useSess then rq.user.bind (findSess w) else none).isSome && (st.kind == .sessionRule || st.kind == .fact))
+    || ((sessOf w rq).isSome && (st.kind == .sessionRule || st.kind == .fact))
 
 /-- a `?…` request on a session that holds ephemeral facts/rules takes the slow path of
     `query_program_with_session`, which does not go through phase 1 -/
 def slowPath (w : World) (rq : Req) : Bool :=
   startsWithChar '?' (trim rq.text) &&
-  match (if rq.useSess then rq.user.bind (findSess w) else none) with
+  match (sessOf w rq) with
   | some se => !se.closed && !(se.facts.isEmpty && se.rules.isEmpty)
   | none => false
 
@@ -94,6 +95,48 @@ theorem postProcess_err (w : World) (role : Option (String × Role)) (whole : Op
   | msgs m sw => simp [hres, isErr] at h
   | rows rs => simp [hres, isErr] at h
 
+theorem sessionIntercept_some (w : World) (sraw : Option Sess) (whole : Option Stmt) (curKg : Option String) (o : Out)
+    (h : sessionIntercept w sraw whole curKg = some o) :
+    sraw.isSome = true ∧ ∃ st, whole = some st ∧ (st.kind = .sessionRule ∨ st.kind = .fact) := by
+  unfold sessionIntercept at h
+  split at h
+  · exact ⟨rfl, _, rfl, Or.inl rfl⟩
+  · exact ⟨rfl, _, rfl, Or.inr rfl⟩
+  · exact ⟨rfl, _, rfl, Or.inl rfl⟩
+  · exact ⟨rfl, _, rfl, Or.inr rfl⟩
+  · cases h
+
+theorem queryPath_reject (P : Parser) (w : World) (rq : Req) (role : Option (String × Role)) (whole : Option Stmt)
+    (sraw : Option Sess)
+    (h : hasSyntaxError P rq.text = true)
+    (hs : ∀ se, sraw = some se → startsWithChar '?' (trim rq.text) = true →
+            (!se.closed && !(se.facts.isEmpty && se.rules.isEmpty)) = false)
+    (hsr : ∀ se, sraw = some se → findSess w se.user = some se) :
+    (queryPath P w rq role whole sraw).w = w ∧ isErr (queryPath P w rq role whole sraw).res = true := by
+  unfold queryPath
+  have q := fun k => query_reject_no_effect P w k rq.text h
+  cases effectiveKg rq.kgArg sraw with
+  | none => simp [isErr]
+  | some effKg =>
+    simp only []
+    cases hq : startsWithChar '?' (trim rq.text) with
+    | false =>
+      simp only []
+      exact ⟨(postProcess_err w role whole _ _ (q effKg).2.1).1.trans (q effKg).1,
+             (postProcess_err w role whole _ _ (q effKg).2.1).2⟩
+    | true =>
+      cases hsr' : sraw with
+      | none =>
+        simp only []
+        exact ⟨(postProcess_err w role whole _ _ (q effKg).2.1).1.trans (q effKg).1,
+               (postProcess_err w role whole _ _ (q effKg).2.1).2⟩
+      | some se =>
+        simp only []
+        have hd := hs se hsr' hq
+        have hq2 := queryWithSession_reject P w se.user rq.text h (by rw [hsr se hsr']; exact hd)
+        have := postProcess_err w role whole (some se) _ hq2.2
+        exact ⟨this.1.trans hq2.1, this.2⟩
+
 theorem execRest_reject (P : Parser) (w : World) (rq : Req) (role : Option (String × Role)) (whole : Option Stmt)
     (sraw : Option Sess) (curKg : Option String)
     (h : hasSyntaxError P rq.text = true)
@@ -101,31 +144,20 @@ theorem execRest_reject (P : Parser) (w : World) (rq : Req) (role : Option (Stri
     (hs : ∀ se, sraw = some se → startsWithChar '?' (trim rq.text) = true →
             (!se.closed && !(se.facts.isEmpty && se.rules.isEmpty)) = false)
     (hsr : ∀ se, sraw = some se → findSess w se.user = some se) :
-    (execProgram.execRest P w rq role whole sraw curKg).w = w ∧
-    isErr (execProgram.execRest P w rq role whole sraw curKg).res = true := by
-  unfold execProgram.execRest
-  have q := fun k => query_reject_no_effect P w k rq.text h
-  split
-  · exact absurd rfl (hi rfl _ rfl).1
-  · exact absurd rfl (hi rfl _ rfl).2
-  · rename_i e _; exact absurd rfl (hi rfl ⟨.sessionRule, e⟩ rfl).1
-  · rename_i e _; exact absurd rfl (hi rfl ⟨.fact, e⟩ rfl).2
-  · split
-    · simp [isErr]
-    · rename_i effKg _
-      simp only []
-      split
-      · -- `?…` with a session id: query_program_with_session
-        next se hq _ _ _ _ _ =>
-        have hd := hs se rfl hq
-        have hq2 := queryWithSession_reject P w se.user rq.text h (by rw [hsr se rfl]; exact hd)
-        have := postProcess_err w role whole (some se) _ hq2.2
-        exact ⟨this.1.trans hq2.1, this.2⟩
-      · exact ⟨(postProcess_err w role whole _ _ (q effKg).2.1).1.trans (q effKg).1,
-               (postProcess_err w role whole _ _ (q effKg).2.1).2⟩
+    (execRest P w rq role whole sraw curKg).w = w ∧
+    isErr (execRest P w rq role whole sraw curKg).res = true := by
+  unfold execRest
+  cases hsi : sessionIntercept w sraw whole curKg with
+  | some o =>
+    rcases sessionIntercept_some w sraw whole curKg o hsi with ⟨h1, st, h2, h3⟩
+    rcases h3 with h3 | h3
+    · exact absurd h3 (hi h1 st h2).1
+    · exact absurd h3 (hi h1 st h2).2
+  | none => exact queryPath_reject P w rq role whole sraw h hs hsr
 
 theorem sraw_found (w : World) (rq : Req) (se : Sess)
-    (h : (if rq.useSess then rq.user.bind (findSess w) else none) = some se) : findSess w se.user = some se := by
+    (h : (sessOf w rq) = some se) : findSess w se.user = some se := by
+  unfold sessOf at h
   by_cases hu : rq.useSess = true
   · simp only [hu, if_true] at h
     cases hus : rq.user with
